@@ -120,7 +120,9 @@ def run_harness(component, cases, workdir, tag="req", timeout=600, env=None):
         e.update(env)
     p = subprocess.run([binpath, reqf, respf], capture_output=True, text=True, timeout=timeout, env=e)
     if p.returncode != 0 or not os.path.exists(respf):
-        raise BuildError("harness run failed (%s): %s" % (component, (p.stderr or "")[-4000:]))
+        se = p.stderr or ""
+        raise BuildError("harness run failed (%s, exit %s): %s%s" % (component, p.returncode, se[:1500],
+                                                                     ("\n...\n" + se[-1200:]) if len(se) > 2700 else se[1500:]))
     err = [l for l in p.stderr.splitlines() if l.startswith("harness panic")]
     if err:
         raise BuildError("harness fault: " + "\n".join(err[:5]) + p.stderr[-3000:])
